@@ -58,10 +58,7 @@ Theorem C03_freeFrame_is_translation :
              | _ => None
              end)
     end.
-Proof.
-  intros mtx a tr f fuel H1 H2. rewrite (B.freeFrame_is_translation mtx a tr f fuel H1 H2).
-  unfold B.free_res. destruct (bitmap_free a f) as [a' r]. destruct r; reflexivity.
-Qed.
+Proof. exact B.freeFrame_is_translation_explicit. Qed.
 Print Assumptions C03_freeFrame_is_translation.
 
 Theorem C03_allocFrame_is_translation :
@@ -76,8 +73,5 @@ Theorem C03_allocFrame_is_translation :
         GOk (B.to_ga mtx a' (GEv "Release" [] :: GEv "Acquire" [] :: tr),
              (mm_InvalidFrame, Some "errBitmapAllocOutOfMemory"%string))
     end.
-Proof.
-  intros mtx a tr fuel H1 H2 H3 H4. rewrite (B.allocFrame_is_translation mtx a tr fuel H1 H2 H3 H4).
-  unfold B.alloc_res. destruct (bitmap_alloc a) as [a' [f|]]; reflexivity.
-Qed.
+Proof. exact B.allocFrame_is_translation_explicit. Qed.
 Print Assumptions C03_allocFrame_is_translation.
